@@ -1,9 +1,10 @@
-"""C19, join part: the 1 px triangle outline through the thick stroke machinery (stroke width 1, Center alignment)."""
+"""C19, join part: the 1 px triangle outline through the thick stroke machinery (stroke width 1, every alignment)."""
 from common import *
 
 RULE = ('no cases of its own: the model functions of the theorems (Model/Join.v, Model/JoinTri.v) are compared with the implementation by the C07 '
         'join suites, which include stroke widths 0 and 1 with all three alignments (join_tri_pixels / join_tri_rects / join_tri_bbox, joinh_join)')
-PARTIAL = ['C19_join_tri_outline_w1 is proved for Center alignment; Inside / Outside alignment with width 1 take the same path in the implementation '
-           '(suites joinh_extents, join_tri_pixels) but are not stated: the width-1 lemma for Line::extents exists for StrokeOffset::None only; '
+PARTIAL = ['C19_join_tri_outline_w1_proper: every triangle with non-zero area, every alignment (Triangle::is_collapsed with width 1 <-> no area: C19_join_is_collapsed_w1); C19_join_tri_outline_w1_any: pixels() of a width-1 stroke = the three clockwise Bresenham lines for Center and Outside alignment unconditionally and for Inside '
+           'alignment whenever Triangle::is_collapsed is false (Line::extents with thickness 1 is the line itself for every StrokeOffset: C19_join_extents_w1_any); '
+           'a COLLAPSED Inside stroke (any width; with width 1 only degenerate triangles collapse) paints the rows of Triangle::scanline_intersection of the whole triangle in the stroke colour: C19_join_collapsed_inside_pixels - not the three clockwise edge lines read literally, so clause 6 is stated as these two cases; '
            'C19_join_tri_outline_w1_partial (per-edge statement) is kept as the stepping stone']
 ASSUMPTIONS = ['vertex coordinates within i32 (the saturating cast of the join intersection is the identity on them)']
